@@ -19,7 +19,7 @@ RULE = (
     "(a) exhaustive decision table: every ordered pair (and every single one) of links at one vertex v, each link "
     "one of 6 classes (DirectedEdge, UnDirectedEdge, a subclass of each, another TwoEndedLink class and a subclass "
     "of it) x position of v (origin, destination, both ends) x filters {none, accept-all, reject-all, 6 selective "
-    "truth tables}; (b) Hypothesis multigraphs with <= 8 vertices and <= 14 links (self-loops, parallel and "
+    "truth tables, 2 falsy callable objects}; (b) Hypothesis multigraphs with <= 8 vertices and <= 14 links (self-loops, parallel and "
     "mixed-class links, link order diversified by end re-assignments) x filters drawn as truth tables over "
     "(link index, vertex index).  For every vertex x 3 directions x 3 unknown-handling modes the result (as an "
     "index list, order and multiplicity significant) must equal the reference decision table, "
@@ -29,7 +29,8 @@ RULE = (
 )
 ASSUMPTIONS = [
     "links have both ends assigned (a None end makes 'the opposite end' None; excluded by construction)",
-    "filters are pure functions of (link identity, vertex identity)",
+    "filters are pure functions of (link identity, vertex identity); they may be callable objects whose truth value is False",
+    "value-equal vertices (a Vertex subclass overriding __eq__/__hash__) appear only in graphs built by constructors alone",
     "under LNK_UNKNOWN_ERROR, when the filter rejects an unknown-class link both 'raises NotImplementedError' and 'skips it' are accepted (the statement fixes neither)",
 ]
 LEVEL_TEXT = (
@@ -50,10 +51,10 @@ def budget(tier):
 
 
 def strategy(tier):
-    return st.builds(lambda g, f: {"g": g, "f": f}, graphs.graph_descs(), graphs.filter_specs)
+    return st.builds(lambda g, f: {"g": g, "f": f}, st.one_of(graphs.graph_descs(), graphs.graph_descs(), graphs.graph_descs(), graphs.eq_graph_descs()), graphs.filter_specs_objs)
 
 
-_TABLE_FILTERS = [None, {"ft": "pair", "mask": 0xFFFF}, {"ft": "pair", "mask": 0}] + [
+_TABLE_FILTERS = [None, {"ft": "pair", "mask": 0xFFFF}, {"ft": "pair", "mask": 0}, {"ft": "pair", "mask": 0, "falsy": True}, {"ft": "edge", "mask": 0b01, "falsy": True}] + [
     {"ft": ft, "mask": m} for ft in ("edge", "pair") for m in (0b01, 0b10, 0b1001)
 ]
 
@@ -70,7 +71,7 @@ def enumerate_cases(tier, shard=0, nshards=1):
 
     return gen(), (
         f"all {len(configs) * len(_TABLE_FILTERS)} rows: 1 or 2 links at one vertex, each of 6 link classes x "
-        f"3 positions of v, x 9 filters, each evaluated under 3 directions x 3 unknown-handling modes at both vertices"
+        f"3 positions of v, x 11 filters (two of them falsy callable objects), each evaluated under 3 directions x 3 unknown-handling modes at both vertices"
     )
 
 
@@ -90,8 +91,12 @@ def check_case(case):
     vi = {id(v): i for i, v in enumerate(vs)}
     li = {id(l): i for i, l in enumerate(ls)}
     f = graphs.make_filter(case["f"])
-    ff = graphs.real_filter2(f, vi, li)
+    ff = graphs.real_filter2(f, vi, li, falsy=graphs.is_falsy(case["f"]))
     classes = set()
+    if graphs.is_falsy(case["f"]):
+        classes.add("falsy-callable-filter")
+    if case["g"].get("eq"):
+        classes.add("value-equal-vertices")
     nt = False
     table = {}
     for v in range(len(vs)):
